@@ -468,7 +468,7 @@ def _chunk(args):
 def generate(ctx: Ctx) -> List[Case]:
     rng = ctx.rng
     n_docs = 40000 if ctx.thorough else 2000
-    n_mut = 200000 if ctx.thorough else 5000
+    n_mut = 180000 if ctx.thorough else 5000
     if ctx.thorough and getattr(ctx, "search", False):
         n_docs, n_mut = 10000, 30000
     jobs: List[Tuple[dict, str]] = [(rec, f"corpus{i}") for i, rec in enumerate(CORPUS)]
